@@ -22,6 +22,7 @@ import lineax as lx
 import numpy as np
 
 from furax import Config
+from furax._base.blocks import BlockDiagonalOperator
 from furax._base import config as config_module
 from furax._base.core import InverseOperator
 from furax._base.diagonal import DiagonalOperator
@@ -46,7 +47,7 @@ class Boom(Exception):
     pass
 
 
-def fresh_settings(rng: Any, fired: list[tuple[int, int]] | None = None) -> dict[str, Any]:
+def fresh_settings(rng: Any, fired: list[tuple[int, int]] | None = None, block_preconditioner: bool = False) -> dict[str, Any]:
     """A random non-empty subset of the four settings, each with a unique, recognisable value."""
     out: dict[str, Any] = {}
     names = [n for n in ('solver', 'solver_throw', 'solver_options', 'solver_callback') if rng.integers(2)]
@@ -60,6 +61,9 @@ def fresh_settings(rng: Any, fired: list[tuple[int, int]] | None = None) -> dict
             out[n] = lx.CG(rtol=1e-6, atol=1e-6, max_steps=i)
         elif n == 'solver_throw':
             out[n] = bool(i % 2)
+        elif n == 'solver_options' and block_preconditioner and rng.integers(3) == 0:
+            # a block-diagonal preconditioner with the layout of the operators inverted by the 'create-blockdiag' event
+            out[n] = {'preconditioner': BlockDiagonalOperator([tiny_operator(), tiny_operator()]), f'key{i}': i}
         elif n == 'solver_options':
             out[n] = {f'key{i}': i}
         else:
@@ -69,6 +73,18 @@ def fresh_settings(rng: Any, fired: list[tuple[int, int]] | None = None) -> dict
             cb.uid = i  # type: ignore[attr-defined]
             out[n] = cb
     return out
+
+
+def snap(kw: dict[str, Any]) -> dict[str, Any]:
+    """The model keeps its OWN copy of dictionary-valued settings: a library that edits the user's dictionary in place must not
+    edit the model with it."""
+    return {k: (dict(v) if isinstance(v, dict) else v) for k, v in kw.items()}
+
+
+def same_value(got: Any, exp: Any) -> bool:
+    if isinstance(got, dict) and isinstance(exp, dict):
+        return got.keys() == exp.keys() and all(got[k] is exp[k] or (not hasattr(got[k], 'mv') and got[k] == exp[k]) for k in got)
+    return bool(got == exp)
 
 
 def model_default() -> dict[str, Any]:
@@ -81,7 +97,7 @@ def compare(mon: str, where: str, model_top: dict[str, Any], trace: list[str], w
     LOG.evaluated(mon)
     for n in FIELDS:
         got, exp = getattr(real, n), model_top[n]
-        same = (got is exp) if n in ('solver', 'solver_callback') else (got == exp)
+        same = (got is exp) if n in ('solver', 'solver_callback') else same_value(got, exp)
         if not same:
             LOG.violation('C19', mon, f'{where}/{n}', f'active {n} is {_d(got)}, the model says {_d(exp)} {who}', history=' '.join(trace[-14:]))
             return False
@@ -122,11 +138,29 @@ def run_history(rng: Any, mon: str, max_depth: int, length: int, apply_budget: l
     inverses: list[tuple[Any, dict[str, Any]]] = list(outer or [])
     prebuilt: list[tuple[Config, dict[str, Any]]] = outer_prebuilt if outer_prebuilt is not None else []   # shared with nested levels
     for _ in range(n):
-        ev = gen.pick(rng, ['enter', 'enter', 'read', 'create', 'apply', 'raise-inside', 'reduce-inverse', 'prebuild', 'enter-prebuilt'])
+        ev = gen.pick(rng, ['enter', 'enter', 'read', 'create', 'apply', 'raise-inside', 'reduce-inverse', 'prebuild', 'enter-prebuilt', 'create-blockdiag'])
+        if ev == 'create-blockdiag':
+            # taking the inverse of a block-diagonal operator (one solver-based inverse per block) is a pure read of the configuration
+            trace.append('CREATE-BLOCKDIAG')
+            bd = BlockDiagonalOperator([SHARED_OPERAND, SHARED_OPERAND] if rng.integers(2) else [SHARED_OPERAND, tiny_operator()])
+            binv = bd.I
+            LOG.count('C19.create', 'blockdiag' + ('+block-preconditioner' if 'preconditioner' in stack[-1]['solver_options'] else ''))
+            compare(mon, 'create-blockdiag-inverse', stack[-1], trace)
+            top = stack[-1]
+            LOG.evaluated(mon)
+            for blk in jax.tree.leaves(binv.blocks, is_leaf=lambda o: hasattr(o, 'mv')):
+                if type(blk).__name__ == 'InverseOperator':
+                    for f in ('solver', 'solver_throw', 'solver_callback'):
+                        got = getattr(blk.config, f)
+                        if not ((got is top[f]) if f in ('solver', 'solver_callback') else got == top[f]):
+                            LOG.violation('C19', mon, f'create-blockdiag-inverse/captured-{f}', f'a block inverse captured {_d(got)}, active {_d(top[f])}',
+                                          history=' '.join(trace[-14:]))
+                            break
+            continue
         if ev == 'prebuild':
             # a Config object built now and entered later: its settings are those of the construction point
-            kw = fresh_settings(rng, fired)
-            prebuilt.append((Config(**kw), {**stack[-1], **kw}))
+            kw = fresh_settings(rng, fired, block_preconditioner=True)
+            prebuilt.append((Config(**kw), {**stack[-1], **snap(kw)}))
             trace.append(f'PREBUILD({",".join(sorted(kw))})')
             continue
         if ev == 'enter-prebuilt':
@@ -143,8 +177,8 @@ def run_history(rng: Any, mon: str, max_depth: int, length: int, apply_budget: l
             compare(mon, 'exit-prebuilt', stack[-1], trace)
             continue
         if ev in ('enter', 'raise-inside') and depth < max_depth:
-            kw = fresh_settings(rng, fired)
-            new_top = {**stack[-1], **kw}
+            kw = fresh_settings(rng, fired, block_preconditioner=True)
+            new_top = {**stack[-1], **snap(kw)}
             boom = ev == 'raise-inside'
             trace.append(f'ENTER{depth + 1}({",".join(sorted(kw))})')
             try:
@@ -178,10 +212,11 @@ def run_history(rng: Any, mon: str, max_depth: int, length: int, apply_budget: l
             top = stack[-1]
             for f in FIELDS:
                 got = getattr(inv.config, f)
-                if not ((got is top[f]) if f in ('solver', 'solver_callback') else (got == top[f])):
+                if not ((got is top[f]) if f in ('solver', 'solver_callback') else same_value(got, top[f])):
                     LOG.violation('C19', mon, f'create-inverse/captured-{f}', f'captured {_d(got)}, active at creation {_d(top[f])}', history=' '.join(trace[-14:]))
                     break
-            inverses.append((inv, dict(top)))
+            if 'preconditioner' not in top['solver_options']:      # (a block preconditioner does not fit the single operands applied later)
+                inverses.append((inv, dict(top)))
         elif ev == 'reduce-inverse' and inverses:
             # reducing a lazy inverse (alone or inside a chain) under another configuration must not change the
             # configuration it captured when it was created
@@ -196,7 +231,7 @@ def run_history(rng: Any, mon: str, max_depth: int, length: int, apply_budget: l
             for o in found:
                 for f in FIELDS:
                     got = getattr(o.config, f)
-                    if not ((got is at_creation[f]) if f in ('solver', 'solver_callback') else (got == at_creation[f])):
+                    if not ((got is at_creation[f]) if f in ('solver', 'solver_callback') else same_value(got, at_creation[f])):
                         LOG.violation('C19', mon, f'reduce-inverse/captured-{f}', f'after reduce() the inverse holds {_d(got)}, captured at creation {_d(at_creation[f])}',
                                       history=' '.join(trace[-14:]))
                         break
@@ -329,7 +364,7 @@ def thread_program(tid: int, steps: list[str], go: threading.Semaphore, done: th
                 c = Config(**kw)
                 c.__enter__()
                 entered.append(c)
-                stack.append({**stack[-1], **kw})
+                stack.append({**stack[-1], **snap(kw)})
             elif step == 'exit':
                 c = entered.pop()
                 c.__exit__(None, None, None)
@@ -470,7 +505,7 @@ def case_contexts(rng: Any, ctx: Ctx, index: int) -> None:
     mon = 'C19.contexts'
     trace: list[str] = []
     kw = fresh_settings(rng)
-    parent_top = {**model_default(), **kw}
+    parent_top = {**model_default(), **snap(kw)}
     with Config(**kw):
         compare(mon, 'parent/enter', parent_top, trace)
 
